@@ -115,6 +115,12 @@ structure WF (h : Heap) : Prop where
   freed_nodup : h.freed.Nodup
   dead_freed : ∀ w ∈ h.dead, ∀ b ∈ (h.obj w).owns, b ∈ h.freed
   keeps_owner : ∀ o b, b ∈ (h.obj o).bufs → ∃ w, Path h o w ∧ b ∈ (h.obj w).owns
+  nd_refs : ∀ o, (h.obj o).kind = .ndarray → (h.obj o).refs.length ≤ 1
+
+theorem Path.inv {h : Heap} {o w : Nat} (hp : Path h o w) : o = w ∨ ∃ p ∈ (h.obj o).refs, Path h p w := by
+  cases hp with
+  | refl => exact Or.inl rfl
+  | step he hp' => exact Or.inr ⟨_, he, hp'⟩
 
 theorem WF.empty : WF Heap.empty := by
   have hn : ∀ o, Heap.empty.obj o = Obj.nil := fun o => obj_nil_of_ge _ o (Nat.zero_le _)
@@ -160,6 +166,7 @@ structure Admissible (h : Heap) (x : Obj) (toks : List Nat) : Prop where
   owns_fresh : ∀ b ∈ x.owns, h.nbuf ≤ b ∧ b < h.nbuf + toks.length
   owns_nodup : x.owns.Nodup
   bufs_kept : ∀ b ∈ x.bufs, b ∈ x.owns ∨ ∃ r ∈ x.refs, ∃ w, Path h r w ∧ b ∈ (h.obj w).owns
+  nd_refs : x.kind = .ndarray → x.refs.length ≤ 1
 
 theorem push_reach {h : Heap} (hw : WF h) {x : Obj} {toks : List Nat} (ha : Admissible h x toks) {o : Nat}
     (hr : Reach (h.push x toks) o) : o = h.objs.length ∨ Reach h o := by
@@ -269,31 +276,102 @@ theorem push_WF {h : Heap} (hw : WF h) {x : Obj} {toks : List Nat} (ha : Admissi
       · refine ⟨w, Path.step (by rw [he]; exact hr) (push_path hp), ?_⟩
         rw [obj_of_lt h w x toks (lt_of_owns hwo)]; exact hwo
     · simp [Obj.nil] at hb
+  · -- nd_refs
+    intro o hk
+    rcases push_cases h x toks o with ⟨_, he⟩ | ⟨_, he⟩ | ⟨_, he⟩ <;> rw [he] at hk ⊢
+    · exact hw.nd_refs o hk
+    · exact ha.nd_refs hk
+    · simp [Obj.nil]
+
+theorem npView_admissible {h : Heap} (hw : WF h) (o : Nat) (x : Obj) (toks : List Nat)
+    (hm : mkNpView h o = some (x, toks)) : Admissible h x toks := by
+  simp only [mkNpView] at hm
+  split at hm
+  next hc =>
+    simp only [Option.some.injEq, Prod.mk.injEq] at hm
+    obtain ⟨rfl, rfl⟩ := hm
+    have hr : Reach h o := contains_reachable hw (by simp at hc; simpa using hc.1)
+    -- the base of the new view: `o`, or the array `o` is itself a view of; either way it is reachable and leads to
+    -- the owner of every buffer `o` addresses
+    have hbase : Reach h (npBase h o) ∧ ∀ b ∈ (h.obj o).bufs, ∃ w, Path h (npBase h o) w ∧ b ∈ (h.obj w).owns := by
+      unfold npBase
+      split
+      next hcond =>
+        cases hrefs : (h.obj o).refs with
+        | nil =>
+          simp only [List.headD_nil]
+          exact ⟨hr, fun b hb => hw.keeps_owner o b hb⟩
+        | cons r rest =>
+          simp only [List.headD_cons]
+          have hlen := hw.nd_refs o hcond.1
+          rw [hrefs] at hlen
+          have hrest : rest = [] := by
+            cases rest with
+            | nil => rfl
+            | cons _ _ => simp at hlen
+          subst hrest
+          refine ⟨Reach.step hr (by rw [hrefs]; simp), fun b hb => ?_⟩
+          obtain ⟨w, hp, hwo⟩ := hw.keeps_owner o b hb
+          rcases hp.inv with h1 | ⟨p, hp1, hp2⟩
+          · rw [← h1, hcond.2] at hwo; cases hwo
+          · rw [hrefs] at hp1
+            simp at hp1
+            exact ⟨w, hp1 ▸ hp2, hwo⟩
+      next => exact ⟨hr, fun b hb => hw.keeps_owner o b hb⟩
+    constructor
+    · intro r hr'; simp at hr'; rw [hr']; exact hbase.1
+    · intro b hb; simp at hb
+    · simp
+    · intro b hb
+      obtain ⟨w, hp, hwo⟩ := hbase.2 b hb
+      exact Or.inr ⟨npBase h o, by simp, w, hp, hwo⟩
+    · intro _; simp
+  next => cases hm
+
+theorem view_admissible {h : Heap} (hw : WF h) (a k : Nat) (x : Obj) (toks : List Nat)
+    (hm : mkView Cfg.full h a k = some (x, toks)) : Admissible h x toks := by
+  simp only [mkView] at hm
+  split at hm
+  next hc =>
+    have hra : Reach h a := contains_reachable hw (by simp at hc; simpa using hc.1)
+    split at hm
+    next s hrefs =>
+      split at hm
+      next b hbk =>
+        simp only [Option.some.injEq, Prod.mk.injEq] at hm
+        obtain ⟨rfl, rfl⟩ := hm
+        have hrs : Reach h s := Reach.step hra (by rw [hrefs]; simp)
+        have hbs : b ∈ (h.obj s).bufs := List.mem_of_getElem? hbk
+        have hhold : Cfg.full.holdView (h.obj s).om = true := by
+          unfold Cfg.holdView; cases (h.obj s).om <;> rfl
+        constructor
+        · intro r hr'; simp [hhold] at hr'; rw [hr']; exact hrs
+        · intro b' hb'; simp at hb'
+        · simp
+        · intro b' hb'
+          simp at hb'
+          rw [hb']
+          obtain ⟨w, hp, hwo⟩ := hw.keeps_owner s b hbs
+          exact Or.inr ⟨s, by simp [hhold], w, hp, hwo⟩
+        · intro hk; simp at hk
+      next => cases hm
+    next => cases hm
+  next => cases hm
 
 /-- every creating command builds an admissible object when both `_hold_ref` calls are made -/
-theorem mkObj_admissible {h : Heap} (hw : WF h) (c : Cmd) (hna : c.aliasing = false) (x : Obj) (toks : List Nat)
-    (hm : mkObj Cfg.code h c = some (x, toks)) : Admissible h x toks := by
+theorem mkObj_admissible {h : Heap} (hw : WF h) (c : Cmd) (hna : c.excluded = false) (x : Obj) (toks : List Nat)
+    (hm : mkObj Cfg.full h c = some (x, toks)) : Admissible h x toks := by
   cases c with
-  | opAliased a => simp [Cmd.aliasing] at hna
+  | opAliased a => simp [Cmd.excluded] at hna
   | newArray tok =>
     simp only [mkObj, Option.some.injEq, Prod.mk.injEq] at hm
     obtain ⟨rfl, rfl⟩ := hm
     constructor <;> simp
-  | npView o =>
-    simp only [mkObj] at hm
-    split at hm
-    next hc =>
-      simp only [Option.some.injEq, Prod.mk.injEq] at hm
-      obtain ⟨rfl, rfl⟩ := hm
-      have hr : Reach h o := contains_reachable hw (by simp at hc; simpa using hc.1)
-      constructor
-      · intro r hr'; simp at hr'; rw [hr']; exact hr
-      · intro b hb; simp at hb
-      · simp
-      · intro b hb
-        obtain ⟨w, hp, hwo⟩ := hw.keeps_owner o b hb
-        exact Or.inr ⟨o, by simp, w, hp, hwo⟩
-    next => cases hm
+  | npView o => exact npView_admissible hw o x toks (by simpa [mkObj] using hm)
+  | rawField a k =>
+    exact view_admissible hw a k x toks (by simpa [mkObj, show Cfg.full.holdOnBaseRoot = true from rfl] using hm)
+  | castView r a =>
+    exact npView_admissible hw r x toks (by simpa [mkObj, show Cfg.full.holdOnBaseRoot = true from rfl] using hm)
   | mkStorage srcs =>
     simp only [mkObj] at hm
     split at hm
@@ -306,13 +384,35 @@ theorem mkObj_admissible {h : Heap} (hw : WF h) (c : Cmd) (hna : c.aliasing = fa
         simp only [Bool.and_eq_true] at this
         exact contains_reachable hw this.1
       constructor
-      · intro r hr; exact hall r (by simpa [Cfg.code] using hr)
+      · intro r hr; exact hall r (by simpa [Cfg.full] using hr)
+      · intro b hb; simp [Cfg.full] at hb
+      · simp [Cfg.full]
+      · intro b hb
+        obtain ⟨s, hs, hbs⟩ := List.mem_flatMap.mp hb
+        obtain ⟨w, hp, hwo⟩ := hw.keeps_owner s b hbs
+        exact Or.inr ⟨s, by simpa [Cfg.full] using hs, w, hp, hwo⟩
+      · intro hk; simp at hk
+    next => cases hm
+  | mkScipy srcs =>
+    simp only [mkObj] at hm
+    split at hm
+    next hc =>
+      simp only [Option.some.injEq, Prod.mk.injEq] at hm
+      obtain ⟨rfl, rfl⟩ := hm
+      have hall : ∀ s ∈ srcs, Reach h s := by
+        intro s hs
+        have := List.all_eq_true.mp hc s hs
+        simp only [Bool.and_eq_true] at this
+        exact contains_reachable hw this.1
+      constructor
+      · intro r hr; exact hall r hr
       · intro b hb; simp at hb
       · simp
       · intro b hb
         obtain ⟨s, hs, hbs⟩ := List.mem_flatMap.mp hb
         obtain ⟨w, hp, hwo⟩ := hw.keeps_owner s b hbs
-        exact Or.inr ⟨s, by simpa [Cfg.code] using hs, w, hp, hwo⟩
+        exact Or.inr ⟨s, hs, w, hp, hwo⟩
+      · intro hk; simp at hk
     next => cases hm
   | opStorage tk =>
     simp only [mkObj, Option.some.injEq, Prod.mk.injEq] at hm
@@ -324,6 +424,7 @@ theorem mkObj_admissible {h : Heap} (hw : WF h) (c : Cmd) (hna : c.aliasing = fa
       exact hb
     · exact List.nodup_range'
     · intro b hb; exact Or.inl hb
+    · intro hk; simp at hk
   | mkArray s =>
     simp only [mkObj] at hm
     split at hm
@@ -336,32 +437,9 @@ theorem mkObj_admissible {h : Heap} (hw : WF h) (c : Cmd) (hna : c.aliasing = fa
       · intro b hb; simp at hb
       · simp
       · intro b hb; simp at hb
+      · intro hk; simp at hk
     next => cases hm
-  | view a k =>
-    simp only [mkObj] at hm
-    split at hm
-    next hc =>
-      have hra : Reach h a := contains_reachable hw (by simp at hc; simpa using hc.1)
-      split at hm
-      next s hrefs =>
-        split at hm
-        next b hbk =>
-          simp only [Option.some.injEq, Prod.mk.injEq] at hm
-          obtain ⟨rfl, rfl⟩ := hm
-          have hrs : Reach h s := Reach.step hra (by rw [hrefs]; simp)
-          have hbs : b ∈ (h.obj s).bufs := List.mem_of_getElem? hbk
-          constructor
-          · intro r hr'; simp [Cfg.code] at hr'; rw [hr']; exact hrs
-          · intro b' hb'; simp at hb'
-          · simp
-          · intro b' hb'
-            simp at hb'
-            rw [hb']
-            obtain ⟨w, hp, hwo⟩ := hw.keeps_owner s b hbs
-            exact Or.inr ⟨s, by simp [Cfg.code], w, hp, hwo⟩
-        next => cases hm
-      next => cases hm
-    next => cases hm
+  | view a k => exact view_admissible hw a k x toks (by simpa [mkObj] using hm)
   | alias o => simp [mkObj] at hm
   | drop o => simp [mkObj] at hm
   | finalize o => simp [mkObj] at hm
@@ -386,6 +464,7 @@ theorem roots_WF {h : Heap} (hw : WF h) (roots : List Nat) (hr : ∀ r ∈ roots
     obtain ⟨w, hp, hwo⟩ := hw.keeps_owner o b hb
     have hp' : Path { h with roots := roots } o w := Path.congr (h := h) (h' := { h with roots := roots }) rfl hp
     exact ⟨w, hp', hwo⟩
+  · exact hw.nd_refs
 
 theorem finalize_WF {h : Heap} (hw : WF h) (o : Nat) (hlt : o < h.objs.length) (hnr : ¬ Reach h o)
     (hnd : o ∉ h.dead) : WF { h with dead := o :: h.dead, freed := (h.obj o).owns ++ h.freed } := by
@@ -429,12 +508,13 @@ theorem finalize_WF {h : Heap} (hw : WF h) (o : Nat) (hlt : o < h.objs.length) (
     have hp' : Path { h with dead := o :: h.dead, freed := (h.obj o).owns ++ h.freed } p w :=
       Path.congr (h := h) (h' := { h with dead := o :: h.dead, freed := (h.obj o).owns ++ h.freed }) rfl hp
     exact ⟨w, hp', hwo⟩
+  · exact hw.nd_refs
 
-theorem step_WF {h h' : Heap} (hw : WF h) (c : Cmd) (hna : c.aliasing = false)
-    (hs : step Cfg.code h c = some h') : WF h' := by
-  have hpush : ∀ c', c'.aliasing = false → (mkObj Cfg.code h c').map (fun p => h.push p.1 p.2) = some h' → WF h' := by
+theorem step_WF {h h' : Heap} (hw : WF h) (c : Cmd) (hna : c.excluded = false)
+    (hs : step Cfg.full h c = some h') : WF h' := by
+  have hpush : ∀ c', c'.excluded = false → (mkObj Cfg.full h c').map (fun p => h.push p.1 p.2) = some h' → WF h' := by
     intro c' hna' hm
-    cases hmk : mkObj Cfg.code h c' with
+    cases hmk : mkObj Cfg.full h c' with
     | none => rw [hmk] at hm; cases hm
     | some p =>
       rw [hmk] at hm
@@ -475,21 +555,298 @@ theorem step_WF {h h' : Heap} (hw : WF h) (c : Cmd) (hna : c.aliasing = false)
   | newArray tok => exact hpush (.newArray tok) rfl hs
   | npView o => exact hpush (.npView o) rfl hs
   | mkStorage srcs => exact hpush (.mkStorage srcs) rfl hs
+  | mkScipy srcs => exact hpush (.mkScipy srcs) rfl hs
   | opStorage toks => exact hpush (.opStorage toks) rfl hs
   | mkArray s => exact hpush (.mkArray s) rfl hs
   | view a k => exact hpush (.view a k) rfl hs
-  | opAliased a => simp [Cmd.aliasing] at hna
+  | opAliased a => simp [Cmd.excluded] at hna
+  | rawField a k => exact hpush (.rawField a k) rfl hs
+  | castView r a => exact hpush (.castView r a) rfl hs
 
-theorem run_WF : ∀ {h h' : Heap} (cs : List Cmd), ExcludedHistory cs = false → WF h → run Cfg.code h cs = some h' → WF h'
+theorem run_WF : ∀ {h h' : Heap} (cs : List Cmd), ExcludedHistory cs = false → WF h → run Cfg.full h cs = some h' → WF h'
   | h, h', [], _, hw, hr => by simp only [run, Option.some.injEq] at hr; rw [← hr]; exact hw
   | h, h', c :: cs, hex, hw, hr => by
     simp only [ExcludedHistory, List.any_cons, Bool.or_eq_false_iff] at hex
     simp only [run] at hr
-    cases hs : step Cfg.code h c with
+    cases hs : step Cfg.full h c with
     | none => rw [hs] at hr; cases hr
     | some h1 =>
       rw [hs] at hr
       exact run_WF cs hex.2 (step_WF hw c hex.1 hs) hr
+
+
+/-! ### the two kinds of storage, the views of each, and who can own a buffer -/
+
+/-- structural facts fixed when an object is created (objects are immutable): a view is a view OF a storage and addresses
+one of its fields; an OWNING storage is the allocation of its fields; a NON-OWNING storage owns nothing and every field
+points into one of the source arrays it references; only a NumPy array that allocated its buffer and an owning storage
+own anything -/
+structure Shape (h : Heap) : Prop where
+  view_of : ∀ v, (h.obj v).kind = .view → ∃ s, (h.obj v).refs = [s] ∧ s < v ∧ (h.obj s).kind = .storage ∧
+      ∀ b ∈ (h.obj v).bufs, b ∈ (h.obj s).bufs
+  owning : ∀ s, (h.obj s).kind = .storage → (h.obj s).om = true → (h.obj s).owns = (h.obj s).bufs
+  nonowning : ∀ s, (h.obj s).kind = .storage → (h.obj s).om = false →
+      (h.obj s).owns = [] ∧ ∀ b ∈ (h.obj s).bufs, ∃ r ∈ (h.obj s).refs, r < s ∧ b ∈ (h.obj r).bufs
+  owner_kind : ∀ w b, b ∈ (h.obj w).owns →
+      ((h.obj w).kind = .ndarray ∧ (h.obj w).refs = []) ∨ ((h.obj w).kind = .storage ∧ (h.obj w).om = true)
+  array_of : ∀ a, (h.obj a).kind = .array → ∀ s, (h.obj a).refs = [s] → s < a ∧ (h.obj s).kind = .storage
+
+theorem Shape.empty : Shape Heap.empty := by
+  have hn : ∀ o, Heap.empty.obj o = Obj.nil := fun o => obj_nil_of_ge _ o (Nat.zero_le _)
+  constructor <;> intros <;> simp_all [Obj.nil]
+
+theorem Shape.congr {h h' : Heap} (ho : h'.objs = h.objs) (hs : Shape h) : Shape h' := by
+  have e : ∀ o, h'.obj o = h.obj o := fun o => by simp [Heap.obj, ho]
+  constructor
+  · intro v hv; simpa [e] using hs.view_of v (by simpa [e] using hv)
+  · intro s h1 h2; simpa [e] using hs.owning s (by simpa [e] using h1) (by simpa [e] using h2)
+  · intro s h1 h2; simpa [e] using hs.nonowning s (by simpa [e] using h1) (by simpa [e] using h2)
+  · intro w b hb; simpa [e] using hs.owner_kind w b (by simpa [e] using hb)
+  · intro a ha s hr; simpa [e] using hs.array_of a (by simpa [e] using ha) s (by simpa [e] using hr)
+
+/-- what a new object has to satisfy for `Shape` -/
+structure ShapeOk (h : Heap) (x : Obj) : Prop where
+  view_of : x.kind = .view → ∃ s, x.refs = [s] ∧ s < h.objs.length ∧ (h.obj s).kind = .storage ∧ ∀ b ∈ x.bufs, b ∈ (h.obj s).bufs
+  owning : x.kind = .storage → x.om = true → x.owns = x.bufs
+  nonowning : x.kind = .storage → x.om = false →
+      x.owns = [] ∧ ∀ b ∈ x.bufs, ∃ r ∈ x.refs, r < h.objs.length ∧ b ∈ (h.obj r).bufs
+  owner_kind : ∀ b ∈ x.owns, (x.kind = .ndarray ∧ x.refs = []) ∨ (x.kind = .storage ∧ x.om = true)
+  array_of : x.kind = .array → ∀ s, x.refs = [s] → s < h.objs.length ∧ (h.obj s).kind = .storage
+
+theorem push_Shape {h : Heap} (hs : Shape h) {x : Obj} {toks : List Nat} (hx : ShapeOk h x) : Shape (h.push x toks) := by
+  constructor
+  · intro v hv
+    rcases push_cases h x toks v with ⟨hl, he⟩ | ⟨hl, he⟩ | ⟨_, he⟩ <;> rw [he] at hv ⊢
+    · obtain ⟨s, h1, h2, h3, h4⟩ := hs.view_of v hv
+      exact ⟨s, h1, h2, by rw [obj_of_lt h s x toks (Nat.lt_trans h2 hl)]; exact h3,
+             by rw [obj_of_lt h s x toks (Nat.lt_trans h2 hl)]; exact h4⟩
+    · obtain ⟨s, h1, h2, h3, h4⟩ := hx.view_of hv
+      exact ⟨s, h1, hl ▸ h2, by rw [obj_of_lt h s x toks h2]; exact h3, by rw [obj_of_lt h s x toks h2]; exact h4⟩
+    · simp [Obj.nil] at hv
+  · intro s h1 h2
+    rcases push_cases h x toks s with ⟨_, he⟩ | ⟨_, he⟩ | ⟨_, he⟩ <;> rw [he] at h1 h2 ⊢
+    · exact hs.owning s h1 h2
+    · exact hx.owning h1 h2
+    · simp [Obj.nil] at h1
+  · intro s h1 h2
+    rcases push_cases h x toks s with ⟨hl, he⟩ | ⟨hl, he⟩ | ⟨_, he⟩ <;> rw [he] at h1 h2 ⊢
+    · obtain ⟨e1, e2⟩ := hs.nonowning s h1 h2
+      refine ⟨e1, fun b hb => ?_⟩
+      obtain ⟨r, hr, hlt, hbr⟩ := e2 b hb
+      exact ⟨r, hr, hlt, by rw [obj_of_lt h r x toks (Nat.lt_trans hlt hl)]; exact hbr⟩
+    · obtain ⟨e1, e2⟩ := hx.nonowning h1 h2
+      refine ⟨e1, fun b hb => ?_⟩
+      obtain ⟨r, hr, hlt, hbr⟩ := e2 b hb
+      exact ⟨r, hr, hl ▸ hlt, by rw [obj_of_lt h r x toks hlt]; exact hbr⟩
+    · simp [Obj.nil] at h1
+  · intro w b hb
+    rcases push_cases h x toks w with ⟨_, he⟩ | ⟨_, he⟩ | ⟨_, he⟩ <;> rw [he] at hb ⊢
+    · exact hs.owner_kind w b hb
+    · exact hx.owner_kind b hb
+    · simp [Obj.nil] at hb
+  · intro a ha s hr
+    rcases push_cases h x toks a with ⟨hl, he⟩ | ⟨hl, he⟩ | ⟨_, he⟩ <;> rw [he] at ha hr
+    · obtain ⟨h1, h2⟩ := hs.array_of a ha s hr
+      exact ⟨h1, by rw [obj_of_lt h s x toks (Nat.lt_trans h1 hl)]; exact h2⟩
+    · obtain ⟨h1, h2⟩ := hx.array_of ha s hr
+      exact ⟨hl ▸ h1, by rw [obj_of_lt h s x toks h1]; exact h2⟩
+    · simp [Obj.nil] at hr
+
+theorem npView_shapeOk {h : Heap} (o : Nat) (x : Obj) (toks : List Nat)
+    (hm : mkNpView h o = some (x, toks)) : ShapeOk h x := by
+  simp only [mkNpView] at hm
+  split at hm
+  next =>
+    simp only [Option.some.injEq, Prod.mk.injEq] at hm
+    obtain ⟨rfl, rfl⟩ := hm
+    constructor <;> simp
+  next => cases hm
+
+theorem view_shapeOk {h : Heap} (hw : WF h) (hsh : Shape h) (a k : Nat) (x : Obj) (toks : List Nat)
+    (hm : mkView Cfg.full h a k = some (x, toks)) : ShapeOk h x := by
+  simp only [mkView] at hm
+  split at hm
+  next hc =>
+    have hra : Reach h a := contains_reachable hw (by simp at hc; simpa using hc.1)
+    have hka : (h.obj a).kind = .array := by simp at hc; exact hc.2
+    split at hm
+    next s hrefs =>
+      split at hm
+      next b hbk =>
+        simp only [Option.some.injEq, Prod.mk.injEq] at hm
+        obtain ⟨rfl, rfl⟩ := hm
+        have hrs : Reach h s := Reach.step hra (by rw [hrefs]; simp)
+        have hbs : b ∈ (h.obj s).bufs := List.mem_of_getElem? hbk
+        have hhold : Cfg.full.holdView (h.obj s).om = true := by
+          unfold Cfg.holdView; cases (h.obj s).om <;> rfl
+        constructor
+        · intro _
+          refine ⟨s, by simp [hhold], Reach.lt hw hrs, ?_, ?_⟩
+          · exact (hsh.array_of a hka s hrefs).2
+          · intro b' hb'; simp at hb'; rw [hb']; exact hbs
+        · intro hk; simp at hk
+        · intro hk; simp at hk
+        · intro b' hb'; simp at hb'
+        · intro hk; simp at hk
+      next => cases hm
+    next => cases hm
+  next => cases hm
+
+/-- every creating command (the aliasing one included) builds an object of the right shape when every edge is made -/
+theorem mkObj_shapeOk {h : Heap} (hw : WF h) (hsh : Shape h) (c : Cmd) (x : Obj) (toks : List Nat)
+    (hm : mkObj Cfg.full h c = some (x, toks)) : ShapeOk h x := by
+  cases c with
+  | newArray tok =>
+    simp only [mkObj, Option.some.injEq, Prod.mk.injEq] at hm
+    obtain ⟨rfl, rfl⟩ := hm
+    constructor <;> simp
+  | npView o => exact npView_shapeOk o x toks (by simpa [mkObj] using hm)
+  | mkStorage srcs =>
+    simp only [mkObj] at hm
+    split at hm
+    next hc =>
+      simp only [Option.some.injEq, Prod.mk.injEq] at hm
+      obtain ⟨rfl, rfl⟩ := hm
+      have hall : ∀ s ∈ srcs, s < h.objs.length := by
+        intro s hs
+        have := List.all_eq_true.mp hc s hs
+        simp only [Bool.and_eq_true] at this
+        exact Reach.lt hw (contains_reachable hw this.1)
+      constructor
+      · intro hk; simp at hk
+      · intro _ hom; simp [Cfg.full] at hom
+      · intro _ _
+        refine ⟨by simp [Cfg.full], fun b hb => ?_⟩
+        obtain ⟨s, hs, hbs⟩ := List.mem_flatMap.mp hb
+        exact ⟨s, by simpa [Cfg.full] using hs, hall s hs, hbs⟩
+      · intro b hb; simp [Cfg.full] at hb
+      · intro hk; simp at hk
+    next => cases hm
+  | mkScipy srcs =>
+    simp only [mkObj] at hm
+    split at hm
+    next =>
+      simp only [Option.some.injEq, Prod.mk.injEq] at hm
+      obtain ⟨rfl, rfl⟩ := hm
+      constructor <;> simp
+    next => cases hm
+  | opStorage tk =>
+    simp only [mkObj, Option.some.injEq, Prod.mk.injEq] at hm
+    obtain ⟨rfl, rfl⟩ := hm
+    constructor <;> simp
+  | opAliased a =>
+    simp only [mkObj] at hm
+    split at hm
+    next =>
+      split at hm
+      next s _ =>
+        simp only [Option.some.injEq, Prod.mk.injEq] at hm
+        obtain ⟨rfl, rfl⟩ := hm
+        constructor <;> simp
+      next => cases hm
+    next => cases hm
+  | mkArray s =>
+    simp only [mkObj] at hm
+    split at hm
+    next hc =>
+      simp only [Option.some.injEq, Prod.mk.injEq] at hm
+      obtain ⟨rfl, rfl⟩ := hm
+      have hr : Reach h s := contains_reachable hw (by simp at hc; simpa using hc.1)
+      have hk : (h.obj s).kind = .storage := by simp at hc; exact hc.2
+      constructor
+      · intro hk'; simp at hk'
+      · intro hk'; simp at hk'
+      · intro hk'; simp at hk'
+      · intro b hb; simp at hb
+      · intro _ s' hs'
+        simp at hs'
+        rw [← hs']
+        exact ⟨Reach.lt hw hr, hk⟩
+    next => cases hm
+  | view a k => exact view_shapeOk hw hsh a k x toks (by simpa [mkObj] using hm)
+  | rawField a k =>
+    exact view_shapeOk hw hsh a k x toks (by simpa [mkObj, show Cfg.full.holdOnBaseRoot = true from rfl] using hm)
+  | castView r a =>
+    exact npView_shapeOk r x toks (by simpa [mkObj, show Cfg.full.holdOnBaseRoot = true from rfl] using hm)
+  | alias o => simp [mkObj] at hm
+  | drop o => simp [mkObj] at hm
+  | finalize o => simp [mkObj] at hm
+
+theorem step_Shape {h h' : Heap} (hw : WF h) (hsh : Shape h) (c : Cmd) (hs : step Cfg.full h c = some h') : Shape h' := by
+  have hpush : ∀ c', (mkObj Cfg.full h c').map (fun p => h.push p.1 p.2) = some h' → Shape h' := by
+    intro c' hm
+    cases hmk : mkObj Cfg.full h c' with
+    | none => rw [hmk] at hm; cases hm
+    | some p =>
+      rw [hmk] at hm
+      simp only [Option.map_some, Option.some.injEq] at hm
+      rw [← hm]
+      exact push_Shape hsh (mkObj_shapeOk hw hsh c' p.1 p.2 hmk)
+  cases c with
+  | alias o =>
+    simp only [step] at hs
+    split at hs
+    · simp only [Option.some.injEq] at hs; rw [← hs]; exact Shape.congr (h := h) rfl hsh
+    · cases hs
+  | drop o =>
+    simp only [step] at hs
+    split at hs
+    · simp only [Option.some.injEq] at hs; rw [← hs]; exact Shape.congr (h := h) rfl hsh
+    · cases hs
+  | finalize o =>
+    simp only [step] at hs
+    split at hs
+    · simp only [Option.some.injEq] at hs; rw [← hs]; exact Shape.congr (h := h) rfl hsh
+    · cases hs
+  | newArray tok => exact hpush (.newArray tok) hs
+  | npView o => exact hpush (.npView o) hs
+  | mkStorage srcs => exact hpush (.mkStorage srcs) hs
+  | mkScipy srcs => exact hpush (.mkScipy srcs) hs
+  | opStorage toks => exact hpush (.opStorage toks) hs
+  | mkArray s => exact hpush (.mkArray s) hs
+  | view a k => exact hpush (.view a k) hs
+  | opAliased a => exact hpush (.opAliased a) hs
+  | rawField a k => exact hpush (.rawField a k) hs
+  | castView r a => exact hpush (.castView r a) hs
+
+theorem run_Shape : ∀ {h h' : Heap} (cs : List Cmd), ExcludedHistory cs = false → WF h → Shape h →
+    run Cfg.full h cs = some h' → Shape h'
+  | h, h', [], _, _, hsh, hr => by simp only [run, Option.some.injEq] at hr; rw [← hr]; exact hsh
+  | h, h', c :: cs, hex, hw, hsh, hr => by
+    simp only [ExcludedHistory, List.any_cons, Bool.or_eq_false_iff] at hex
+    simp only [run] at hr
+    cases hs : step Cfg.full h c with
+    | none => rw [hs] at hr; cases hr
+    | some h1 =>
+      rw [hs] at hr
+      exact run_Shape cs hex.2 (step_WF hw c hex.1 hs) (step_Shape hw hsh c hs) hr
+
+/-! ### reference counts -/
+
+theorem le_sum_of_mem : ∀ {l : List Nat} {a : Nat}, a ∈ l → a ≤ l.sum
+  | x :: l, a, h => by
+    rw [List.sum_cons]
+    rcases List.mem_cons.mp h with h1 | h1
+    · omega
+    · have := le_sum_of_mem h1; omega
+
+/-- an object the program can reach has a positive reference count (so CPython does not deallocate it) -/
+theorem refcount_pos_of_reach {h : Heap} (hw : WF h) {o : Nat} (hr : Reach h o) : 0 < refcount h o := by
+  unfold refcount
+  cases hr with
+  | root hm =>
+    have := List.count_pos_iff.mpr hm
+    omega
+  | @step p _ hp he =>
+    have hlt : p < h.objs.length := Reach.lt hw hp
+    have hnd : p ∉ h.dead := hw.reach_alive p hp
+    have hmem : (h.obj p).refs.count o ∈
+        ((List.range h.objs.length).filter fun p => !h.dead.contains p).map fun p => (h.obj p).refs.count o := by
+      refine List.mem_map.mpr ⟨p, List.mem_filter.mpr ⟨List.mem_range.mpr hlt, ?_⟩, rfl⟩
+      simpa using hnd
+    have h1 := le_sum_of_mem hmem
+    have h2 := List.count_pos_iff.mpr he
+    omega
 
 /-- a step never changes the contents of an existing buffer (for any configuration) -/
 theorem step_frame (cfg : Cfg) {h h' : Heap} (hlen : h.cont.length = h.nbuf) (c : Cmd) (hs : step cfg h c = some h') :
@@ -526,10 +883,13 @@ theorem step_frame (cfg : Cfg) {h h' : Heap} (hlen : h.cont.length = h.nbuf) (c 
   | newArray tok => exact hpush (.newArray tok) hs
   | npView o => exact hpush (.npView o) hs
   | mkStorage srcs => exact hpush (.mkStorage srcs) hs
+  | mkScipy srcs => exact hpush (.mkScipy srcs) hs
   | opStorage toks => exact hpush (.opStorage toks) hs
   | mkArray s => exact hpush (.mkArray s) hs
   | view a k => exact hpush (.view a k) hs
   | opAliased a => exact hpush (.opAliased a) hs
+  | rawField a k => exact hpush (.rawField a k) hs
+  | castView r a => exact hpush (.castView r a) hs
 
 theorem run_frame (cfg : Cfg) : ∀ {h h' : Heap} (cs : List Cmd), h.cont.length = h.nbuf → run cfg h cs = some h' →
     h'.cont.length = h'.nbuf ∧ h.nbuf ≤ h'.nbuf ∧ ∀ b, b < h.nbuf → h'.cont[b]? = h.cont[b]?
